@@ -54,8 +54,14 @@ func famPair(o *Out, r R, tier string) {
 				q2 := reqT{method: q1.method, hdrs: cloneHdr(q1.hdrs)}
 				alt := genRequest(c, r)
 				changed := 0
-				for _, k := range keys {
+				pairKeys := append(append([]string{}, keys...), r.pick(extraReqHeaderKeys), r.pick(extraReqHeaderKeys), "Sec-Fetch-Site")
+				for _, k := range pairKeys {
 					if vn[k] && !r.chance(1, 12) {
+						continue
+					}
+					if vals, isExtra := extraReqHeaders[k]; isExtra && r.chance(1, 2) {
+						q2.hdrs[k] = []string{r.pick(vals)}
+						changed++
 						continue
 					}
 					switch r.Intn(4) {
@@ -281,11 +287,38 @@ func famHistWant(want string) family {
 			case 3: // an insecure origin that is fine as long as neither credentials nor PNA are switched on
 				a = cors.Config{Origins: []string{"http://example.com", "https://example.org"}, Methods: []string{"PUT"}, RequestHeaders: []string{"X-Foo"}}
 			}
+			if s >= 4 && s < 12 { // boundary list sizes in the current state; B extends A's origin list by one related origin
+				cnt := []int{16, 8, 32, 64, 15, 17, 9, 33}[s-4]
+				a = cors.Config{Origins: []string{"https://example.com"}, Methods: []string{"PUT"}, MaxAgeInSeconds: 30}
+				for _, h := range genSiblings(r, cnt) {
+					a.Origins = append(a.Origins, "https://"+h)
+				}
+				for k := 0; k < cnt; k++ {
+					a.RequestHeaders = append(a.RequestHeaders, "x-b"+strconv.Itoa(100+k)[1:])
+				}
+				bcfg = cloneCfg(a)
+				bcfg.Origins = append(bcfg.Origins, "https://zz"+a.Origins[1][len("https://")+1:])
+				bcfg.Methods = []string{"DELETE"}
+				bcfg.RequestHeaders = []string{"X-A"}
+			}
 			inv1, inv2 := genInvalidConfig(r), genInvalidConfig(r)
+			if s >= 4 && s < 12 {
+				inv1 = cors.Config{Origins: []string{"https://other.example.org"}, RequestHeaders: []string{"X-A"}, MaxAgeInSeconds: -2}
+			}
 			inv2.Origins = append([]string{}, a.Origins...) // partly valid, differs from the current state
 			inv2.MaxAgeInSeconds = 86401
 			inv2.Methods = []string{"PUT", "CONNECT"}
 			probes := probeSuite(&a, &bcfg)
+			if s >= 4 && s < 12 { // every allowed name of the current state, and the name only the rejected configuration lists
+				for k, h := range append([]string{"x-a"}, a.RequestHeaders...) {
+					if k%4 == 0 || k < 3 || k >= len(a.RequestHeaders)-2 {
+						probes = append(probes, reqT{method: "OPTIONS", hdrs: http.Header{"Origin": {"https://example.com"}, "Access-Control-Request-Method": {"PUT"}, "Access-Control-Request-Headers": {strings.ToLower(h)}}})
+					}
+				}
+				zz := bcfg.Origins[len(bcfg.Origins)-1]
+				probes = append(probes, reqT{method: "GET", hdrs: http.Header{"Origin": {zz}}},
+					reqT{method: "OPTIONS", hdrs: http.Header{"Origin": {zz}, "Access-Control-Request-Method": {"PUT"}}})
+			}
 			probeSX := make(SL, len(probes))
 			for i, q := range probes {
 				probeSX[i] = q.sx()
@@ -321,6 +354,19 @@ func famHistWant(want string) family {
 						return
 					}
 				}
+				// a bystander: another middleware in state A that no operation ever touches
+				by, _ := cors.NewMiddleware(cloneCfg(a))
+				var by0 string
+				if by != nil {
+					by0 = str(observe(by, nil, probes))
+				}
+				defer func() {
+					if by != nil {
+						if by1 := str(observe(by, nil, probes)); by1 != by0 {
+							o.emitDirect("hist-bystander", false, "a middleware that was never touched changed its behaviour while another one was reconfigured: "+truncate(by0)+" -> "+truncate(by1))
+						}
+					}
+				}()
 				obs := SL{observe(m, nil, probes)}
 				opsx := SL{}
 				for _, op := range ops {
@@ -375,6 +421,11 @@ func famHistWant(want string) family {
 			if s < 4 && (tier != "thorough" || s < 2) {
 				rec(nil)
 			}
+			if s >= 4 && s < 12 {
+				for _, ops := range [][]opT{{alphabet[5]}, {alphabet[4]}, {alphabet[5], alphabet[3]}, {alphabet[0], alphabet[5]}, {alphabet[4], alphabet[5]}, {alphabet[6]}} {
+					run(ops, &a)
+				}
+			}
 			for k := 0; k < 25; k++ {
 				n := 1 + r.Intn(maxLen)
 				ops := make([]opT, n)
@@ -407,6 +458,18 @@ func famRoundtrip(o *Out, r R, tier string) {
 		{Origins: []string{"*", "https://a.com"}, Methods: []string{"*", "PUT"}, RequestHeaders: []string{"Authorization", "*"}, ResponseHeaders: []string{"x-a", "*"}},
 		{Origins: []string{"https://a.com"}, Methods: []string{"GET", "POST"}, ResponseHeaders: []string{"Content-Type"}, MaxAgeInSeconds: -1, ExtraConfig: cors.ExtraConfig{PreflightSuccessStatus: 204}},
 		{Origins: []string{"https://a.com"}, Credentialed: true, RequestHeaders: []string{"*", "authorization"}, MaxAgeInSeconds: 0, ExtraConfig: cors.ExtraConfig{PreflightSuccessStatus: 200}},
+	}
+	special = append(special,
+		cors.Config{Origins: []string{"http://[2606:4700:4700::1111]:8080", "http://[2001:db8::abcd]", "http://[2001:db8:aaaa:1111::100]:*"}},
+		cors.Config{Origins: []string{"https://example.com"}, RequestHeaders: []string{"X_Request_Id", "x-Trace^Span", "X-`Q~|"}, ResponseHeaders: []string{"X_Trace_Id", "x!#$%&'+.^"}, Methods: []string{"Pu_T", "q^Z"}})
+	for k := 0; k < 12; k++ {
+		c := cors.Config{Origins: []string{"http://" + genIPv6(r) + genPort(r, "http"), "http://" + genIPv6(r), genInsecureOrigin(r)}}
+		for j := 0; j < 1+k%3; j++ {
+			c.RequestHeaders = append(c.RequestHeaders, genHdrName(r))
+			c.ResponseHeaders = append(c.ResponseHeaders, genHdrName(r))
+			c.Methods = append(c.Methods, genMethod(r))
+		}
+		special = append(special, c)
 	}
 	for i := 0; i < n+len(special); i++ {
 		var c cors.Config
@@ -604,7 +667,8 @@ func famPattern(o *Out, r R, tier string) {
 	}
 	ipv4s := []string{"127.0.0.1", "10.0.0.1", "255.255.255.255", "0.0.0.0", "1.2.3.4", "192.168.1.254"}
 	ipv6s := []string{"[::1]", "[::]", "[2001:db8::1]", "[1:2:3:4:5:6:7:8]", "[fe80::1]", "[2001:db8:0:1:1:1:1:1]", "[1::8]", "[2001:db8::]"}
-	schemes := []string{"https", "http", "connector", "a", "x+y", "x-y.z", "h2", maxScheme}
+	schemes := []string{"https", "http", "connector", "a", "x+y", "x-y.z", "h2", maxScheme,
+		"httpx", "http+unix", "https-proxy", "https+insecure", "httpss", "http2", "htt", "ht", "h", "https.", "http-", "file2", "nul", "ws", "wss"}
 	for i := 0; i < n; i++ {
 		scheme := r.pick(schemes)
 		var host string
@@ -614,6 +678,9 @@ func famPattern(o *Out, r R, tier string) {
 			host = r.pick(ipv4s)
 		case hk == 1:
 			host = r.pick(ipv6s)
+			if r.chance(1, 2) {
+				host = genIPv6(r)
+			}
 		default:
 			host = genDomain(r)
 			if r.chance(1, 6) && len(host) <= 253 {
